@@ -33,10 +33,12 @@ const (
 )
 
 type StrV struct {
-	K int
-	S string
-	T string
-	C []string
+	K   int
+	S   string
+	T   string
+	C   []string
+	Pre string // opaque only: a known literal prefix of the value
+	Min int    // opaque only: a known lower bound of the length
 }
 
 type TimeV struct{ T string } // Int: ns since Unix epoch (mathematical); zeroTime is year 1
